@@ -421,6 +421,17 @@ def extra(tier, base_seed):
             herr.append("model conformance: simulated and real maps differ for %s (the simulator misrepresents the code)" % _cfg_str(cfg))
         os.remove(outp)
     info["real_wall_s"] = round(info["real_wall_s"], 2)
+    # the findings D1-D4 re-checked with REAL processes (watchdog 25 s each): they must stay repaired
+    if tier == "thorough":
+        info["real_process_regressions"] = {}
+        for d in ("D1", "D2", "D3", "D4"):
+            pr = subprocess.run([sys.executable, os.path.join(here, "repro", "real_bane.py"), d], capture_output=True,
+                                text=True, stdin=subprocess.DEVNULL, timeout=120)
+            line = (pr.stdout.strip().splitlines() or ["?"])[-1]
+            info["real_process_regressions"][d] = "ok" if pr.returncode == 0 else line[:200]
+            if pr.returncode != 0:
+                viol.append({"kind": "real-" + d, "message": "REAL processes, reproduction %s of a repaired finding fails again: %s"
+                             % (d, line[:300])})
     # the Pool/Barrier model itself against real multiprocessing on toy workloads
     from simkit import selftest
     nsc, bad = selftest.compare(seeds=4 if tier == "quick" else 16)
